@@ -75,11 +75,11 @@ func vpEnvName() string {
 func vpEnvValue() string {
 	switch vpInt(0, vpParam("valueshapes")-1) {
 	case 0:
-		return vpStrUpTo(1, "x-z")
+		return vpStrUpTo(1, "A-Bax")
 	case 1:
 		return "$" + vpStr(1, "A-Ba-b")
 	case 2:
-		return vpStr(1, "x-z") + "${" + vpStr(1, "A-Ba-b") + "}"
+		return vpStr(1, "ax") + "${" + vpStr(1, "A-Ba-b") + "}"
 	}
 	return "$$" + vpStr(1, "A-Ba-b") // escaped: stays a literal $V
 }
@@ -94,7 +94,7 @@ func vpH_c10_envblock() {
 	nc := vpInt(0, vpParam("callervars"))
 	for i := 0; i < nc; i++ {
 		name := vpStr(1, "A-Ba-b")
-		val := vpStrUpTo(1, "x-z")
+		val := vpStrUpTo(1, "A-Bax") // values share letters with names: an expanded name can hit a caller variable
 		caller.Set(name, val)
 		model.Set(name, val)
 	}
